@@ -63,8 +63,7 @@ func runC03(c C03Case, ev *Evid) (fs []Finding) {
 	}
 	b1, h, f := runHistoryToBytes("C03", c.H, lastBatch)
 	if h != nil && h.m.Stats.Z1 {
-		ev.Discard("Z1-float32-xff-boundary")
-		return nil
+		ev.Class("float32-xff-boundary-met")
 	}
 	if len(f) > 0 {
 		return f
